@@ -26,6 +26,7 @@ RULE = (
     ' Round 5: histories contain `session`, `save`, `reload` and `fault n` events; two parked commands + one event of every kind + two wakes enumerated.'
     ' Round 6: destinations registered and presented with arbitrary version texts.'
     ' Round 7: incoming sets with the ack flag (echoes) between park and wake.'
+    ' Round 8: `bystander` gateway holding its own command for the same node id.'
 )
 ASSUMPTIONS = [
     "for protocols 1.4/1.5, which have no wake message, 'next wake' is observed after the gateway reports 2.2.0 and the node sends a pre-sleep notification",
